@@ -76,7 +76,7 @@ def variants_c15(s, rng, k, force_id=False):
     for v in range(k):
         if v < 3:
             r = {"spelling": ["id", "alias", "mixed"][v] if not force_id else "id", "shuffle": False, "descriptive": False, "seed": rng.randrange(1 << 30), "renumbered": False,
-                 "numeric_names": v == 2}
+                 "numeric_names": True if v == 2 else ("odd" if v == 1 else False)}
             out.append((s, S.render(s, random.Random(r["seed"]), r["spelling"], False, False, r["numeric_names"]), r))
         else:
             s2 = renumber(s, rng)
@@ -102,6 +102,40 @@ def run_meta(ctx, variants_fn, n_valid, n_mut, what, rule, trusted, k=4):
         s, name, owner, desc = M.mutate(rng, threads=(i % 2 == 1))
         add(s, "mutant", name, owner, desc)
     evaluated = engine.run_items(ctx, items)
+    if variants_fn is variants_c14:
+        # the other order-free arrays of the statement: pipelines, variable declarations, filter clauses, outputs
+        # (scenarios with pipelines and their single-fault mutants), import entries and connections
+        import pipes, imports as I
+        pitems, iitems = [], []
+
+        def addp(s, kind, name=None, owner=None, desc=None):
+            g = "p" + engine.scen_hash(s)
+            for (sv, doc, r) in variants_c14(s, rng, k):
+                pitems.append(engine.Item(sv, doc, kind, mutator=name, owner=owner, desc=desc, render=r, group=g))
+        for i in range(max(1, n_valid // 2) * scale):
+            addp(pipes.gen_valid_p(rng, threads=(i % 2 == 1), n_pipes=rng.choice([1, 2, 2]))[0], "valid-pipelines")
+        for i in range(max(1, n_mut // 2) * scale):
+            # every fourth mutant is one whose detection could depend on the position in an order-free array
+            only = ("p_filter_ill_typed_beside_group", "p_filter_ill_typed", "p_output_type_mismatch") if i % 4 == 0 else ("C08", "C09")
+            s, name, owner, desc = pipes.mutate_p(rng, only=only, threads=(i % 2 == 1))
+            if name in M.FORCE_ID_SPELLING or True:
+                addp(s, "mutant-pipelines", name, owner, desc)
+        evaluated = engine.run_items_grouped(ctx, pitems, coq_file_fn=pipes.coq_cases_file_p) and evaluated
+        for i in range(max(1, n_valid // 3) * scale + max(1, n_mut // 3) * scale):
+            if i < max(1, n_valid // 3) * scale:
+                case, name, desc = I.gen_valid_i(rng, threads=(i % 3 == 0)), None, None
+            else:
+                case, name, desc = I.mutate_i(rng)
+            seed0 = rng.randrange(1 << 30)
+            for v in range(k):
+                r = {"spelling": "id", "shuffle": v > 0, "descriptive": False, "seed": seed0 + v}
+                doc = I.render_i(case, ctx.repo_copy, random.Random(r["seed"]), r["spelling"], r["shuffle"], False)
+                iitems.append(engine.Item(case, doc, "valid-imports" if name is None else "mutant-imports", mutator=name, owner="C16" if name else None,
+                                          desc=desc, render=r, group="i%d" % i))
+        evaluated = engine.run_items_grouped(ctx, iitems, coq_file_fn=I.coq_cases_file_i) and evaluated
+        for it in iitems:
+            it.scenario = {"native": it.scenario["native"], "imports": [{kk: vv for kk, vv in imp.items() if kk != "builder"} for imp in it.scenario["imports"]]}
+        items = items + pitems + iitems
     # metamorphic relation on the implementation alone
     by = collections.defaultdict(list)
     for it in items:
